@@ -519,6 +519,8 @@ type fcase struct {
 	SnHex   string          `json:"snappy_in_hex"`
 	Written map[string]bool `json:"-"` // non-nil: every returned record must be one of these
 	Obs     *obs            `json:"impl,omitempty"`
+	snTerm  string
+	snOk    bool
 }
 
 var forgedSizes = []uint32{0, 1, 15, 16, 17, 255, 65535, 65536, 1 << 20, 1 << 26, 0x7FFFFFFF, 0x80000000, 0xFFFFFFF0, 0xFFFFFFFF}
@@ -778,6 +780,13 @@ func snappyObs(in []byte) (string, bool) {
 				err = fmt.Errorf("panic: %v", r)
 			}
 		}()
+		// snappy.Decode allocates the declared length before decoding (up to 4 GiB, the very
+		// defect ParseBlock now guards against). Inputs here are < 4 KiB and an element expands
+		// at most 64/3, so a declared length above 1 MiB is certain to end in ErrCorrupt.
+		if dl, e := snappy.DecodedLen(in); e == nil && dl > 1<<20 {
+			err = snappy.ErrCorrupt
+			return
+		}
 		out, err = snappy.Decode(nil, in)
 	}()
 	if err != nil {
@@ -796,7 +805,7 @@ func errTerm(e string) string {
 	return "EOther"
 }
 
-// hx prints a byte string as (hx "<hex>") - decoded by Storage/C04Reader.v:hx
+// hx prints a byte string as (hx "<hex>") - decoded by Storage/C04Cases.v:hx
 func hx(b []byte) string { return "(hx \"" + hex.EncodeToString(b) + "\")" }
 
 func caseTerm(eofs [3]bool, c *fcase) string {
@@ -836,7 +845,7 @@ func caseTerm(eofs [3]bool, c *fcase) string {
 	default:
 		name = "NTimeout"
 	}
-	sn, _ := snappyObs(c.SnIn)
+	sn := c.snTerm
 	return common.App("MkCase",
 		"("+common.Bool(eofs[0])+", "+common.Bool(eofs[1])+", "+common.Bool(eofs[2])+")",
 		hx(c.File), common.N(uint64(crc32.ChecksumIEEE(c.File))),
@@ -873,8 +882,9 @@ func main() {
 			return
 		}
 	}
+	tStart := time.Now()
 	args := common.ParseArgs()
-	run := common.NewRun(args, "C04", "HV.Storage.C04Reader")
+	run := common.NewRun(args, "C04", "HV.Storage.C04Cases")
 	run.Meta.Rule = "non-trivial = the bytes pass the file-header stage (magic, version, name), i.e. the block loop of the real reader ran on them"
 	rng := common.NewRng(args.Seed, "C04")
 
@@ -971,6 +981,7 @@ func main() {
 		}
 	}
 
+	tGen := time.Now()
 	eofs, pok := probeTail(tmpdir)
 	run.Meta.Extra["tail_policy_observed"] = map[string]bool{"partial_header_is_eof": eofs[0], "header_without_payload_is_eof": eofs[1], "short_payload_is_eof": eofs[2]}
 	if !pok {
@@ -998,16 +1009,18 @@ func main() {
 		}
 	})
 
+	tRun := time.Now()
 	for _, c := range cases {
 		c.Hex = hex.EncodeToString(c.File)
 		c.SnHex = hex.EncodeToString(c.SnIn)
 		o := c.Obs
 		nontrivial := !(o.LoadKind == "err" && (o.LoadErr == "EMagic" || o.LoadErr == "EVersion")) && len(c.File) >= 64 &&
 			!(o.LoadKind == "err" && o.LoadErr == "EShort" && o.ScanKind == "err")
+		c.snTerm, c.snOk = snappyObs(c.SnIn)
 		idx := run.Add(caseTerm(eofs, c), c, nontrivial)
 		run.Hist("kind:" + c.Kind)
 		run.Hist("load:" + o.LoadKind + ":" + o.LoadErr)
-		if _, ok := snappyObs(c.SnIn); ok {
+		if c.snOk {
 			run.Hist("snappy:ok")
 		} else {
 			run.Hist("snappy:err")
@@ -1027,5 +1040,6 @@ func main() {
 		}
 	}
 	run.Meta.Traces = len(cases)
+	run.Meta.Extra["seconds_generate_run_emit"] = []float64{tGen.Sub(tStart).Seconds(), tRun.Sub(tGen).Seconds(), time.Since(tRun).Seconds()}
 	run.Finish("check_all")
 }
